@@ -19,3 +19,15 @@ def blockin_jobs(tier, which=None):
                         unwind=(1<<e1)+2,slice=True,witnesses=['ordinary block']+(['copy region of a short->long transition'] if (e0!=e1 and w0==0 and w1==1) else []),functions=['vorbis_synthesis_blockin'],
                         models=['real window tables'],bounds='block sizes (%d,%d), hs %d, previous W=%d, this W=%d, buffer half %d; every float value; one arbitrary observed cell'%(1<<e0,1<<e1,hs,w0,w1,cw),weight=4))
     return J
+
+def lapout_jobs(tier):
+    J=[]
+    for e0,e1,hs in ([(6,7,0)] if tier=='quick' else [(6,6,0),(6,7,0),(6,8,0),(7,8,1)]):
+        for lw in (0,1):
+            for w in (0,1):
+                for base in (0,1):
+                    wit={(0,0):'short/short',(1,1):'long/long'}.get((lw,w),'long/short transition') if e0!=e1 else 'short/short'
+                    J.append(Job('lapout-%d-%d-hs%d-%d%d%d'%(1<<e0,1<<e1,hs,lw,w,base),'block/lapout.c',defs=['-DE0=%d'%e0,'-DE1=%d'%e1,'-DHS=%d'%hs,'-DLWC=%d'%lw,'-DWC=%d'%w,'-DBASEC=%d'%base],unwind=(1<<e1)+2,
+                        witnesses=['not primed',wit]+(['halves swapped'] if base else []),functions=['vorbis_synthesis_lapout'],
+                        models=[],bounds='block sizes (%d,%d), hs %d, previous/current block flags (%d,%d), buffer half %d, 1 channel, no eos trim pending; any amount already read; every cell value'%(1<<e0,1<<e1,hs,lw,w,base),weight=2))
+    return J
